@@ -127,6 +127,9 @@ func (c *ExecuteCtx) AdjustChunkCache(chooseIdxes []int) {
 		}
 		c.FieldChunkCaches[k] = nv
 	}
+	// The per-chunk entries belong to the chunks that were just filtered; a later chunk
+	// that starts with the same key (the rows that passed) must not see them.
+	clear(c.FieldChunkKeyCaches)
 }
 
 type FinalPlan interface {
